@@ -1,0 +1,26 @@
+# -*- coding: UTF-8 -*-
+"""Observation hooks for the runtime monitors kept outside of this repository.
+
+Everything here is inert unless the environment variable PYCEL_VERIF is "1"
+when pycel is imported.  The library never depends on a listener being present.
+"""
+import os
+
+ENABLED = os.environ.get('PYCEL_VERIF') == '1'
+
+# callables taking (event_name, info_dict)
+listeners = []
+
+
+def emit(event, **info):
+    for listener in tuple(listeners):
+        listener(event, info)
+
+
+def wrap_read(kind, func, excel_formula):
+    """wrap an evaluate function so that each read is attributed to a formula"""
+    def traced_read(address):
+        emit('read', kind=kind, formula=excel_formula, address=address)
+        return func(address)
+    traced_read.__wrapped__ = func
+    return traced_read
